@@ -24,6 +24,7 @@ pub struct Pn(pub u8);
 impl Ord for Pn { fn cmp(&self, o: &Pn) -> ::core::cmp::Ordering { self.0.cmp(&o.0) } }
 impl PartialOrd for Pn { fn partial_cmp(&self, o: &Pn) -> Option<::core::cmp::Ordering> {
     if self.0 == 255 || o.0 == 255 { None } else { Some(self.0.cmp(&o.0)) } } }
+pub type Sl = [u8];
 pub fn feed<T: Hash + ?Sized>(x: &T) -> String { let mut h = Rec(String::new()); x.hash(&mut h); h.0 }
 '''
 # field types: (name, sexp, rust, values, needs)
@@ -291,8 +292,43 @@ class C12(Prop):
                     samples.append(dict(input=r.input_text()[:300], observed=[g[0] for g in got]))
         for name, _ in batches:
             l2.cleanup(name)
-        return dict(evaluations=len(mods), validated=validated, programs=len(mods), observations=n_obs,
+        # hand-written shapes the standard derives accept, compiled next to their std twin (check only)
+        class _Lit:
+            def __init__(self, text):
+                self.text, self.meta = text, dict(nontrivial=True, unsized=False, traits=[])
+            def input_text(self):
+                return self.text
+        lits = []
+        for k, (traits, decl) in enumerate(STD_ACCEPTED_SHAPES):
+            for mode in ('A', 'D'):
+                head = ('#[::derive_ex::derive_ex(%s)]\n' % traits) if mode == 'A' else '#[derive(::derive_ex::Ex)]\n#[derive_ex(%s)]\n' % traits
+                text = ('#[derive_ex(%s)] %s' % (traits, decl)) if mode == 'A' else '#[derive(Ex)] #[derive_ex(%s)] %s' % (traits, decl)
+                lits.append(l2.Module(4 * 10 ** 6 + 2 * k + (mode == 'D'),
+                                      head + decl + '\npub mod twin { #[allow(unused_imports)] use super::*; #[derive(%s)] %s }\npub fn run() {}' % (traits, decl), _Lit(text)))
+        l2.compile_parallel([('c12lit', lits)], prelude=PRELUDE, check_only=True)
+        for mo in lits:
+            if not mo.compiled:
+                errs = [d for d in mo.diags if d['level'] == 'error']
+                failures.append(dict(**{'class': 'std-accepted-shape-does-not-compile', 'mode': 'compile'}, input=mo.meta.input_text(),
+                                     expected='compiles like the standard derives', observed=[d['message'] for d in errs][:3],
+                                     in_generated_code=any(d['in_macro'] for d in errs)))
+            else:
+                validated += 1
+        l2.cleanup('c12lit')
+        return dict(evaluations=len(mods) + len(lits), validated=validated, programs=len(mods) + len(lits), observations=n_obs,
                     failures=failures, samples=samples)
+
+
+# (traits, declaration): shapes outside the random grammar
+STD_ACCEPTED_SHAPES = [
+    # two used field types that differ only in a lifetime (the recorded C12 finding, known_findings.json)
+    ('Clone, Debug, PartialEq', "pub struct X<'a, 'b, T>(pub &'a T, pub &'b T);"),
+    # ... and the same with one lifetime (no ambiguity)
+    ('Clone, Debug, PartialEq', "pub struct X<'a, T>(pub &'a T, pub &'a T);"),
+    # an unsized last field that its tokens do not give away
+    ('Debug, PartialEq', 'pub struct X(pub u8, pub Sl);'),
+    ('Debug, PartialEq, Eq, PartialOrd, Ord, Hash', '#[allow(unused_parens)] pub struct X { pub a: u8, pub b: (str) }'),
+]
 
 
 def _compile_class(r, errs):
